@@ -57,6 +57,34 @@ func runC08(t *testing.T, rc *core.RunCtx) {
 		m := w.m
 		all, eff := w.all, w.eff
 		// per-transition judgement at its end
+		// the Exception transition a fault leads to is an accepted, state-changing
+		// mutation like any other: the auto mutation for the eligible Auto states
+		// comes right after it (C07's rule, checked here because this is where
+		// faults, deadlines and backoff are)
+		var pendingAuto []string
+		pendingAfter := ""
+		w.onTxEnd = append(w.onTxEnd, func(tx *txRec) {
+			if pendingAuto != nil && !tx.auto && !s.Failed() {
+				s.Fail("C08/missing-auto-after-exception", "after %s the next transition is %s%v, not the auto mutation for %v", pendingAfter, tx.typ, tx.called, pendingAuto)
+				return
+			}
+			pendingAuto = nil
+			if !tx.faulted && tx.accepted && !tx.auto && !tx.check && tx.typ == am.MutationAdd && has(tx.called, am.StateException) && fmt.Sprint(tx.tb) != fmt.Sprint(tx.ta) {
+				for _, nm := range all {
+					if !eff[nm].Auto || has(tx.activeEnd, nm) {
+						continue
+					}
+					blocked := false
+					for _, a := range tx.activeEnd {
+						blocked = blocked || has(eff[a].Remove, nm)
+					}
+					if !blocked {
+						pendingAuto = append(pendingAuto, nm)
+					}
+				}
+				pendingAfter = fmt.Sprintf("%s%v (%v -> %v)", tx.typ, tx.called, tx.before, tx.activeEnd)
+			}
+		})
 		w.onTxEnd = append(w.onTxEnd, func(tx *txRec) {
 			// whatever is still called after a fault must not be a final handler
 			// looking at a state that has been rolled back under its feet (final
@@ -270,6 +298,9 @@ func runC08(t *testing.T, rc *core.RunCtx) {
 		s.Run()
 		if s.TimedOut && !s.Failed() {
 			s.Fail("C08/blocked", "calls still in flight after %v: %v", s.MaxSim, s.InFlight)
+		}
+		if pendingAuto != nil && !s.Failed() && !s.StepLimited && !s.TimedOut && w.cur == nil {
+			s.Fail("C08/missing-auto-after-exception", "%s was the last transition: the auto mutation for %v never ran", pendingAfter, pendingAuto)
 		}
 		// every clause above is judged when a transition ends: one that never
 		// reports its end would escape them all
